@@ -4,6 +4,7 @@ import (
 	"fmt"
 	"go/token"
 	"regexp"
+	"sort"
 
 	"golang.org/x/tools/go/ssa"
 	"golang.org/x/tools/go/ssa/ssautil"
@@ -111,7 +112,7 @@ func (env *SpecEnv) specType(s string) types.Type {
 	if strings.HasPrefix(s, "[]") {
 		return types.NewSlice(env.specType(s[2:]))
 	}
-	if i := strings.Index(s, "."); i >= 0 {
+	if i := strings.LastIndex(s, "."); i >= 0 && !strings.ContainsAny(s, "{( ") {
 		// pkg.Type, looked up among the imports of env.pkg (and the program)
 		pname, tname := s[:i], s[i+1:]
 		for _, p := range env.e.eng.prog.AllPackages() {
@@ -960,6 +961,9 @@ func (env *SpecEnv) evalCall(x *SExpr) Value {
 			vt = env.e.curIn(env.view, "ghost:ctx$valT", ArrS(SStr, SInt), false)
 		}
 		return intV(Select(Select(vt, cv.L[1]), k))
+	case "zero":
+		// zero(T): the zero value of type T
+		return zeroValue(env.specType(args[0].String()))
 	case "typeid":
 		return intV(IntLit(int64(env.e.eng.typeID(env.specType(args[0].String())))))
 	case "as":
@@ -1377,6 +1381,23 @@ func autoPatterns(body string, vars []string) string {
 				cands[v] = append(cands[v], sub)
 			}
 		}
+	}
+	if len(vars) == 1 {
+		// single variable: every distinct candidate is an alternative trigger
+		c := cands[vars[0]]
+		if len(c) == 0 {
+			return ""
+		}
+		sort.Slice(c, func(i, j int) bool { return len(c[i]) < len(c[j]) })
+		var alts []string
+		seen := map[string]bool{}
+		for _, x := range c {
+			if !seen[x] && len(alts) < 5 {
+				seen[x] = true
+				alts = append(alts, ":pattern ("+x+")")
+			}
+		}
+		return strings.Join(alts, " ")
 	}
 	// one multi-pattern covering all variables, built from the shortest candidate per variable
 	var parts []string
